@@ -460,6 +460,12 @@ func c16pEmit(c c16pCase, kind string, emit func(hx.Input)) {
 	if total == 0 {
 		tags = append(tags, "no-moves")
 	}
+	switch {
+	case total >= 128:
+		tags = append(tags, "moves>=128")
+	case total >= 64:
+		tags = append(tags, "moves>=64")
+	}
 	emit(hx.Input{
 		In: c16pInput(c, o),
 		Desc: fmt.Sprintf("fen=%q hash=%s(0x%04x) kind=%s ipl=%v base=%d stack=%v drive=(seed %d, rounds %d) stale-store=%d moves=%d+%d",
@@ -526,6 +532,12 @@ func genC16p(rng *hx.Rng, n int, tier string, emit func(hx.Input)) {
 			// positions with 0, 1 or 2 quiet pseudo-legal moves (random play never produces them)
 			if fb := c16FewQuiet(rng, []int{0, 1, 0, 1, 2}[rng.Intn(5)]); fb != nil {
 				b, hist = fb, nil
+			}
+		}
+		if pos%13 == 7 {
+			// heavy promoted material: 80..218 pseudo-legal moves (cursor / index widths, store capacity)
+			if hp := posgen.Heavy(rng); hp != nil {
+				b, hist = hp.B, nil
 			}
 		}
 		fen := c16Fen(b)
